@@ -547,3 +547,15 @@ Proof. induction ops as [|op ops IH]; intros b OK; cbn [run].
     + split; [intros _|intros _; eauto]. exists op. split; [left; reflexivity|]. apply (step_panic_iff p b op O1). eauto. Qed.
 Theorem build_panic_iff p ops : forallb op_ok ops = true -> ((exists w, build p ops = Panic w) <-> exists op, In op ops /\ op_panics p op).
 Proof. intros OK. rewrite <- (run_panic_iff p ops b_new OK). unfold build. destruct (run p ops b_new); cbn [obind]; split; intros [w H]; try discriminate H; eauto. Qed.
+
+(* what `expected` shows for an integer: the dedicated opcode, or a push that read_scriptint reads back *)
+Theorem int_item_reads_back p n : (- 2 ^ 31 < n < 2 ^ 31)%Z ->
+  match int_item p n with
+  | IPush e => read_scriptint e = SOk n /\ special_small n = false
+  | IOp c => (n = -1 /\ c = x4f)%Z \/ ((1 <= n <= 16)%Z /\ b2n c = Z.to_N (0x50 + n))
+  | _ => False end.
+Proof. intros R. unfold int_item, special_small. destruct (Z.eqb_spec n (-1)) as [->|N1]; [left; split; reflexivity|].
+  destruct ((1 <=? n) && (n <=? 16))%Z eqn:S.
+  - right. split; [lia|]. apply b2n_n2b_small. lia.
+  - destruct (Z.eqb_spec n 0) as [->|NZ]; [split; reflexivity|]. cbn [orb]. split; [|reflexivity].
+    destruct (scriptint_roundtrip p n R) as (e & E & Rd). unfold scriptint_bytes. rewrite E. exact Rd. Qed.
